@@ -1747,10 +1747,11 @@ def stages(tier, seed):
         out += [
             make_tab_stage("G1_tableau_closure_n2", 2, lambda d: ("all" if d <= 2 else "fast_tab", ALLF), expect=11520),
             make_ch_stage("G2_chform_closure_n2", 2, lambda d: ("all" if d <= 2 else "fast", ALLF)),
-            make_tab_stage("G3_tableau_n3_depth4", 3, lambda d: ("all" if d == 0 else ("g3" if d <= 2 else "core"),
-                                                                 F_INV1 | F_MEAS if d <= 2 else F_INV1), max_depth=4),
+            make_tab_stage("G3_tableau_n3_all_letters_depth2", 3, lambda d: ("all", F_INV1 | F_MEAS), max_depth=2),
+            make_tab_stage("G3_tableau_n3_depth4", 3, lambda d: ("g3" if d <= 2 else "core", F_INV1 | F_MEAS if d <= 2 else F_INV1), max_depth=4),
             make_tab_stage("G3_tableau_n3_generators_depth5", 3, lambda d: ("gen", F_INV1 if d <= 3 else 0), max_depth=5),
-            make_ch_stage("G2_chform_n3_depth3", 3, lambda d: ("all" if d == 0 else "g3", F_INV1 | F_MEAS), max_depth=3),
+            make_ch_stage("G2_chform_n3_all_letters_depth2", 3, lambda d: ("all", F_INV1 | F_MEAS), max_depth=2),
+            make_ch_stage("G2_chform_n3_depth3", 3, lambda d: ("g3", F_INV1 | F_MEAS), max_depth=3),
             make_ch_stage("G2_chform_n3_generators_depth5", 3, lambda d: ("gen_gp", (F_INV1 | F_MEAS) if d <= 2 else 0), max_depth=5),
         ]
     out.append(CaseStage("simulator_distributions_all_paths", sim_cases(tier), run_sim, reset=reset, describe=sim_describe))
